@@ -435,7 +435,7 @@ def run(ctx, prop):
             if G is None: continue
             vseed = rng.randrange(2 ** 31)
             # how the graph is held: as parsed for the wide shape (it depends on the order of the node table); re-labelled and pruned tables at fixed case numbers; random otherwise
-            vkinds = ["as-parsed"] if shape == "wide" else {4: ["relabelled"], 9: ["pruned"], 11: ["permuted"]}.get(ci % 14)
+            vkinds = ["as-parsed"] if shape == "wide" else {4: ["relabelled"], 7: ["relabelled"], 9: ["pruned"], 11: ["permuted"]}.get(ci % 14)
             # C05 is about graphs built from documents and re-parses the written files with the UNTOUCHED base file: a graph from which a namespace was
             # pruned is not such a graph (the base file may declare references to the pruned nodes), so the round trip uses the other variants only
             if prop == "C05": vkinds = ["permuted"] if vkinds == ["pruned"] else (vkinds or ["as-parsed", "as-parsed", "permuted", "relabelled"])
